@@ -38,9 +38,10 @@ Fixpoint starts_with (s p : list Z) {struct p} : bool :=
 (* str.endswith *)
 Definition ends_with (s p : list Z) : bool := starts_with (rev s) (rev p).
 
-(* the two string literals of `dump` / `_write_fileobject` *)
-Definition zlib_name : list Z := [122; 108; 105; 98].      (* "zlib" *)
-Definition lz4_name : list Z := [108; 122; 52].            (* "lz4" *)
+(* the literals of `dump` / `_write_fileobject`, regenerated from the source (Gen/C03_Constants.v) *)
+Definition zlib_name : list Z := dump_default_method.        (* compress_method = "zlib" *)
+Definition lz4_name : list Z := dump_lz4_literal.            (* compress_method == "lz4" and lz4 is None *)
+Definition fallback_name : list Z := write_fallback_method.  (* _COMPRESSORS["zlib"] in _write_fileobject *)
 
 (* ------------------------------------------------------------------ dump: the arguments *)
 
@@ -72,7 +73,7 @@ Definition in_registry (name : list Z) : bool :=
 
 (* compress_level in range(10) *)
 Definition level_valid (l : level) : bool :=
-  match l with LNone => true | LInt n => (0 <=? n) && (n <? 10) end.
+  match l with LNone => true | LInt n => (0 <=? n) && (n <? dump_level_stop) end.
 (* compress_level == 0   (None == 0 is False) *)
 Definition level_is_zero (l : level) : bool :=
   match l with LNone => false | LInt n => n =? 0 end.
@@ -124,8 +125,8 @@ Definition resolve (c : cform) (t : target) : result wcfg :=
 (* _write_fileobject: the named compressor if registered, zlib otherwise *)
 Definition write_codec (m : option (list Z)) : list Z :=
   match m with
-  | Some n => if in_registry n then n else zlib_name
-  | None => zlib_name
+  | Some n => if in_registry n then n else fallback_name
+  | None => fallback_name
   end.
 
 (* compressor_file / decompressor_file raise ValueError (`_check_versions`) when the backing
